@@ -45,6 +45,24 @@ pub fn vx_f64_to_string(x: f64) -> String { unimplemented!() }
 pub fn vx_i64_to_string(x: i64) -> String { unimplemented!() }
 
 //@FN run_calculator
+
+// ---- try_run_calculator: the dispatcher in front of the calculator (C19): EVERY line that is arithmetic is evaluated as arithmetic ----
+//@TYPE CommandResult
+impl CommandResult {
+//@FN CommandResult::new
+//@FN CommandResult::from_status
+}
+pub uninterp spec fn spec_is_arith(line: Seq<char>) -> bool;
+// tools::is_arithmetic (three regexes): the classification rule itself, uninterpreted here (bounded: all short strings over the arithmetic alphabet)
+#[verifier::external_body]
+pub fn is_arithmetic(line: &str) -> (r: bool) ensures r == spec_is_arith(line@) { unimplemented!() }
+#[verifier::external_body]
+pub proof fn new_mode() -> (tracked r: CalcMode) ensures !r.used_float && !r.used_int { unimplemented!() }
+#[verifier::external_body]
+pub fn vx_println(s: &String) { }
+#[verifier::external_body]
+pub fn vx_eprintln_calc(s: &str) { }
+//@FN try_run_calculator
 ''' + common.TAIL
 
 
@@ -96,7 +114,18 @@ run_calculator = Fn('src/core.rs', 'run_calculator', ret='r',
     props=('C19',),
 )
 
-UNIT = Unit('U-CALC', TEMPLATE, fns=[run_calculator], raw={'primary_num': gen_primary}, props=('C19', 'C05'))
+try_run_calculator = Fn('src/core.rs', 'try_run_calculator', ret='r', props=('C19',),
+    pre_rewrites=[Rw('tools::is_arithmetic(', 'is_arithmetic(', rule='R0'),
+                  Rw('println!("{}", result);', 'vx_println(&result);', rule='R3', why='printing the result'),
+                  Rw('println_stderr!("cicada: calculator: {}", e);', 'vx_eprintln_calc(e);', rule='R3', why='printing the diagnostic'),
+                  Rw('e.to_string()', 'vx_s(e)', rule='R7', required=False)],
+    ghost_args={'run_calculator': 'Tracked(&mut md)'},
+    hints={'before-call:run_calculator': 'RAW: let tracked mut md = new_mode();'},
+    ensures=[('C19.dispatch.a_line_is_evaluated_as_arithmetic_exactly_when_it_is_classified_as_arithmetic', 'r.is_some() == spec_is_arith(line@)'),
+             ],
+)
+UNIT = Unit('U-CALC', TEMPLATE, fns=[run_calculator, try_run_calculator, Fn('src/types.rs', 'new', impl='CommandResult'), Fn('src/types.rs', 'from_status', impl='CommandResult')],
+            types=[TypeItem('src/types.rs', 'struct', 'CommandResult')], raw={'primary_num': gen_primary}, props=('C19', 'C05'))
 TRUSTED = common.TRUSTED_STR + [
     'str::parse::<i64> / parse::<f64>: std contracts (Ok iff a decimal in range); float->int `as` cast saturates (never panics)',
     'pest: calculator::calculate and the Pairs iterator are external; calc.next().unwrap() on a successful parse is trusted',
